@@ -18,7 +18,6 @@ import (
 	"bytes"
 	"context"
 	"fmt"
-	"io"
 	"io/ioutil"
 	"strconv"
 	"strings"
@@ -38,7 +37,7 @@ func decodeOneblockfileData(data []byte) (*pbbstream.Block, error) {
 		return nil, fmt.Errorf("unable to create block reader: %w", err)
 	}
 	blk, err := blockReader.Read()
-	if err != nil && err != io.EOF {
+	if err != nil {
 		return nil, fmt.Errorf("block reader failed: %w", err)
 	}
 	return blk, nil
@@ -51,7 +50,7 @@ func decodeOneblockfileToBlockMeta(data []byte) (*pbbstream.BlockMeta, error) {
 		return nil, fmt.Errorf("unable to create block reader: %w", err)
 	}
 	blk, err := blockReader.ReadAsBlockMeta()
-	if err != nil && err != io.EOF {
+	if err != nil {
 		return nil, fmt.Errorf("block meta reader failed: %w", err)
 	}
 	return blk, nil
